@@ -24,6 +24,7 @@ import (
 	"flag"
 	"fmt"
 	"os"
+	"runtime/pprof"
 	"sort"
 	"strings"
 	"time"
@@ -642,8 +643,17 @@ func main() {
 	dbl := flag.Int("double", 0, "seeded enumeration: random double-crash schedules per enumerated scenario")
 	shard := flag.String("shard", "0/1", "k/n: run the cases with index = k mod n")
 	verbose := flag.Bool("v", false, "print scenarios")
+	prof := flag.String("cpuprofile", "", "write a CPU profile")
 	flag.Parse()
 	defer sim.Cleanup()
+	if *prof != "" {
+		f, err := os.Create(*prof)
+		if err != nil {
+			panic(err)
+		}
+		pprof.StartCPUProfile(f)
+		defer pprof.StopCPUProfile()
+	}
 	seed := tr.Seed()
 	r := &runner{w: newWorld(seed), out: tr.Create(*out), stats: map[string]int{}, cache: map[string]*scenario{}, base: map[bool]*baseT{}, seed: seed, verbose: *verbose}
 	var shardK, shardN int
@@ -716,5 +726,4 @@ func main() {
 	fmt.Printf("runs=%d boots=%d scenarios=%d lines=%d wall=%.1fs %s\n", r.runs, r.boots, len(r.cache), r.out.N, time.Since(t0).Seconds(), strings.Join(st, " "))
 }
 
-var _ = os.Getenv
 var _ ipfs.Proxy
